@@ -34,77 +34,78 @@ fn dbg_bool(dbg: &str, name: &str) -> i64 {
 }
 
 
-// Enumerations are projected by the *name* of the variant (the API), mapped to the code the standard assigns to
+// Enumerations are projected by the *name* of the variant (the API; `Variant { .. }` matches it whether or not it
+// carries fields), mapped to the code the standard assigns to
 // that name - never by casting the discriminant, which would follow a renumbering of the enum silently.
 fn fs_code(f: &FlightStatus) -> i64 {
     match f {
-        FlightStatus::NoAlertNoSPIAirborne => 0,
-        FlightStatus::NoAlertNoSPIOnGround => 1,
-        FlightStatus::AlertNoSPIAirborne => 2,
-        FlightStatus::AlertNoSPIOnGround => 3,
-        FlightStatus::AlertSPIAirborneGround => 4,
-        FlightStatus::NoAlertSPIAirborneGround => 5,
-        FlightStatus::Reserved => 6,
-        FlightStatus::NotAssigned => 7,
+        FlightStatus::NoAlertNoSPIAirborne { .. } => 0,
+        FlightStatus::NoAlertNoSPIOnGround { .. } => 1,
+        FlightStatus::AlertNoSPIAirborne { .. } => 2,
+        FlightStatus::AlertNoSPIOnGround { .. } => 3,
+        FlightStatus::AlertSPIAirborneGround { .. } => 4,
+        FlightStatus::NoAlertSPIAirborneGround { .. } => 5,
+        FlightStatus::Reserved { .. } => 6,
+        FlightStatus::NotAssigned { .. } => 7,
         _ => -1, // a variant this projection does not know: equal to no specified value
     }
 }
 fn ids_code(t: &UtilityMessageType) -> i64 {
     match t {
-        UtilityMessageType::NoInformation => 0,
-        UtilityMessageType::CommB => 1,
-        UtilityMessageType::CommC => 2,
-        UtilityMessageType::CommD => 3,
+        UtilityMessageType::NoInformation { .. } => 0,
+        UtilityMessageType::CommB { .. } => 1,
+        UtilityMessageType::CommC { .. } => 2,
+        UtilityMessageType::CommD { .. } => 3,
         _ => -1, // a variant this projection does not know: equal to no specified value
     }
 }
 fn ss_code(s: &SurveillanceStatus) -> i64 {
     match s {
-        SurveillanceStatus::NoCondition => 0,
-        SurveillanceStatus::PermanentAlert => 1,
-        SurveillanceStatus::TemporaryAlert => 2,
-        SurveillanceStatus::SPICondition => 3,
+        SurveillanceStatus::NoCondition { .. } => 0,
+        SurveillanceStatus::PermanentAlert { .. } => 1,
+        SurveillanceStatus::TemporaryAlert { .. } => 2,
+        SurveillanceStatus::SPICondition { .. } => 3,
         _ => -1, // a variant this projection does not know: equal to no specified value
     }
 }
 pub fn parity_code(f: &CPRFormat) -> i64 {
     match f {
-        CPRFormat::Even => 0,
-        CPRFormat::Odd => 1,
+        CPRFormat::Even { .. } => 0,
+        CPRFormat::Odd { .. } => 1,
         _ => -1, // a variant this projection does not know: equal to no specified value
     }
 }
 fn sign_code(s: &Sign) -> i64 {
     match s {
-        Sign::Positive => 0,
-        Sign::Negative => 1,
+        Sign::Positive { .. } => 0,
+        Sign::Negative { .. } => 1,
         _ => -1, // a variant this projection does not know: equal to no specified value
     }
 }
 fn vrsrc_code(s: &VerticalRateSource) -> i64 {
     match s {
-        VerticalRateSource::BarometricPressureAltitude => 0,
-        VerticalRateSource::GeometricAltitude => 1,
+        VerticalRateSource::BarometricPressureAltitude { .. } => 0,
+        VerticalRateSource::GeometricAltitude { .. } => 1,
         _ => -1, // a variant this projection does not know: equal to no specified value
     }
 }
 fn gts_code(s: &StatusForGroundTrack) -> i64 {
     match s {
-        StatusForGroundTrack::Invalid => 0,
-        StatusForGroundTrack::Valid => 1,
+        StatusForGroundTrack::Invalid { .. } => 0,
+        StatusForGroundTrack::Valid { .. } => 1,
         _ => -1, // a variant this projection does not know: equal to no specified value
     }
 }
 fn es_code(e: &EmergencyState) -> i64 {
     match e {
-        EmergencyState::None => 0,
-        EmergencyState::General => 1,
-        EmergencyState::Lifeguard => 2,
-        EmergencyState::MinimumFuel => 3,
-        EmergencyState::NoCommunication => 4,
-        EmergencyState::UnlawfulInterference => 5,
-        EmergencyState::DownedAircraft => 6,
-        EmergencyState::Reserved2 => 7,
+        EmergencyState::None { .. } => 0,
+        EmergencyState::General { .. } => 1,
+        EmergencyState::Lifeguard { .. } => 2,
+        EmergencyState::MinimumFuel { .. } => 3,
+        EmergencyState::NoCommunication { .. } => 4,
+        EmergencyState::UnlawfulInterference { .. } => 5,
+        EmergencyState::DownedAircraft { .. } => 6,
+        EmergencyState::Reserved2 { .. } => 7,
         _ => -1, // a variant this projection does not know: equal to no specified value
     }
 }
@@ -119,31 +120,31 @@ fn tcl_code(t: &TypeCoding) -> i64 {
 }
 fn ver_code(v: &ADSBVersion) -> i64 {
     match v {
-        ADSBVersion::DOC9871AppendixA => 0,
-        ADSBVersion::DOC9871AppendixB => 1,
-        ADSBVersion::DOC9871AppendixC => 2,
+        ADSBVersion::DOC9871AppendixA { .. } => 0,
+        ADSBVersion::DOC9871AppendixB { .. } => 1,
+        ADSBVersion::DOC9871AppendixC { .. } => 2,
         _ => -1, // a variant this projection does not know: equal to no specified value
     }
 }
 
 fn cap(c: &Capability) -> i64 {
     match c {
-        Capability::AG_UNCERTAIN => 0,
+        Capability::AG_UNCERTAIN { .. } => 0,
         Capability::Reserved(v) => i64::from(*v),
-        Capability::AG_GROUND => 4,
-        Capability::AG_AIRBORNE => 5,
-        Capability::AG_UNCERTAIN2 => 6,
-        Capability::AG_UNCERTAIN3 => 7,
+        Capability::AG_GROUND { .. } => 4,
+        Capability::AG_AIRBORNE { .. } => 5,
+        Capability::AG_UNCERTAIN2 { .. } => 6,
+        Capability::AG_UNCERTAIN3 { .. } => 7,
         _ => -1, // a variant this projection does not know: equal to no specified value
     }
 }
 
 fn dr(d: &DownlinkRequest) -> i64 {
     match d {
-        DownlinkRequest::None => 0,
-        DownlinkRequest::RequestSendCommB => 1,
-        DownlinkRequest::CommBBroadcastMsg1 => 4,
-        DownlinkRequest::CommBBroadcastMsg2 => 5,
+        DownlinkRequest::None { .. } => 0,
+        DownlinkRequest::RequestSendCommB { .. } => 1,
+        DownlinkRequest::CommBBroadcastMsg1 { .. } => 4,
+        DownlinkRequest::CommBBroadcastMsg2 { .. } => 5,
         DownlinkRequest::Unknown(v) => i64::from(*v),
         _ => -1, // a variant this projection does not know: equal to no specified value
     }
@@ -280,10 +281,10 @@ fn me(m: &mut Obj, me: &ME) {
                 m,
                 "st28",
                 match s.sub_type {
-                    AircraftStatusType::NoInformation => 0,
-                    AircraftStatusType::EmergencyPriorityStatus => 1,
-                    AircraftStatusType::ACASRaBroadcast => 2,
-                    AircraftStatusType::Reserved => 3,
+                    AircraftStatusType::NoInformation { .. } => 0,
+                    AircraftStatusType::EmergencyPriorityStatus { .. } => 1,
+                    AircraftStatusType::ACASRaBroadcast { .. } => 2,
+                    AircraftStatusType::Reserved { .. } => 3,
                 },
             );
             put(m, "es", es_code(&s.emergency_state));
